@@ -124,6 +124,19 @@ pub fn run(tier: Tier, seed: u64) -> i32 {
     for &al in &[0.0, 1.0, -1.0, 0.5] { both!(("SkewNormal", format!("(2,3,{al})")), |F| SkewNormal::<F>::new(2.0, 3.0, al as F).ok()); }
     for &(a, b) in &[(1.0, 0.0), (2.0, -1.0), (10.0, 3.0)] { both!(("NormalInverseGaussian", format!("({a},{b})")), |F| NormalInverseGaussian::<F>::new(a as F, b as F).ok()); }
     for &l in &[0.5, 11.99, 12.0, 100.0, 1e6] { both!(("Poisson", format!("({l})")), |F| Poisson::<F>::new(l as F).ok()); }
+    // extremes of the accepted parameter ranges (finite internal state only)
+    for &l in &[f64::MIN_POSITIVE, 1e-300, 1e-20, 5e-17, 1e15] { both!(("Poisson", format!("({l:e})")), |F| Poisson::<F>::new(l as F).ok()); }
+    for &v in &[1e-30, 1e-5, 1e5, 1e30] {
+        both!(("Gamma", format!("({v:e},1)")), |F| Gamma::<F>::new(v as F, 1.0).ok());
+        both!(("Gamma", format!("(2,{v:e})")), |F| Gamma::<F>::new(2.0, v as F).ok());
+        both!(("Beta", format!("({v:e},2)")), |F| Beta::<F>::new(v as F, 2.0).ok());
+        both!(("ChiSquared", format!("({v:e})")), |F| ChiSquared::<F>::new(v as F).ok());
+        both!(("Weibull", format!("(1,{v:e})")), |F| Weibull::<F>::new(1.0, v as F).ok());
+        both!(("Pareto", format!("({v:e},1)")), |F| Pareto::<F>::new(v as F, 1.0).ok());
+        both!(("Normal", format!("({v:e},{v:e})")), |F| Normal::<F>::new(v as F, v as F).ok());
+        both!(("InverseGaussian", format!("({v:e},1)")), |F| InverseGaussian::<F>::new(v as F, 1.0).ok());
+    }
+    for &(n, p) in &[(1000u64, 1e-20), (u64::MAX, 1e-300), (u64::MAX, 0.5), (1, 0.5), (0, 0.3)] { check(&mut cx, &format!("Binomial({n},{p:e})"), Binomial::new(n, p).ok(), |a, b| a == b); }
     for &(n, p) in &[(20u64, 0.3), (20, 0.7), (100, 0.4), (100, 0.6), (1 << 62, 1e-19), (7, 0.0), (7, 1.0), (1 << 53, 0.5)] { check(&mut cx, &format!("Binomial({n},{p})"), Binomial::new(n, p).ok(), |a, b| a == b); }
     for &p in &[1.0, 0.9, 0.5, 0.01, 1e-12, 0.0] { check(&mut cx, &format!("Geometric({p})"), Geometric::new(p).ok(), |a, b| a == b); }
     for &(nn, kk, n) in &[(60u64, 30u64, 17u64), (500, 400, 30), (10100, 10000, 1000), (250, 200, 230), (1 << 40, 1 << 39, 1 << 20)] { check(&mut cx, &format!("Hypergeometric({nn},{kk},{n})"), Hypergeometric::new(nn, kk, n).ok(), |a, b| a == b); }
